@@ -15,8 +15,9 @@ C15 — collections configured with `resource.WithIDInterceptor(f)`.
 
 The operations (`istep f`) follow the same code as `RStore.step`, with the interceptor where the code applies it:
 
-* `Collection.Add(id, msg, WithGenIDIfAbsent(), WithIDCallback(…))`: `id = f(id)`; when THAT is empty an id is
-  generated: `genID` probes `f(candidate)` for existence and returns `f(candidate)`, which the callback writes into
+* `Collection.Add(id, msg, WithGenIDIfAbsent(), WithIDCallback(…))`: `id = f(id)`; when the id AS GIVEN is empty
+  (929e9c0: decided before the interceptor runs; `istepWith false` is the code before it, which looked at `f(id)`
+  only) or `f(id)` is empty an id is generated: `genID` probes `f(candidate)` for existence and returns `f(candidate)`, which the callback writes into
   the message; otherwise the message keeps its own spelling `id` and is stored under `f(id)`;
 * parent `AddChild` (`ensure`): an existing child (same `f(name)`) is left alone, whatever its spelling;
 * `Update*(msg)`, `UpdatePublication(id, msg)`, parent `AddChildTrait(name)` (= a create-if-absent update of
@@ -42,7 +43,7 @@ def RStore.iwrite (s : RStore) (sid fld : String) (upsert writesKey : Bool) : RS
 
 def RStore.istepWith (fixed : Bool) (f : String → String) (s : RStore) : RecOp → RStore × StoreRes
   | .add id cand =>
-    match (if f id = "" then (genId cand (fun c => decide (f c ∈ s.ids)) 10 0).map (fun c => (f c, f c))
+    match (if (fixed = true ∧ id = "") ∨ f id = "" then (genId cand (fun c => decide (f c ∈ s.ids)) 10 0).map (fun c => (f c, f c))
            else some (f id, id)) with
     | none => (s, .aborted)
     | some (sid, fld) => if sid ∈ s.ids then (s, .alreadyExists) else ({ id := sid, key := fld } :: s, .ok fld)
@@ -109,8 +110,6 @@ theorem write_iinv {f : String → String} {s : RStore} (h : s.IInv f) (fld : St
 
 /-- The hypotheses on the interceptor. -/
 structure GoodIcpt (f : String → String) : Prop where
-  /-- the empty id stays empty (it asks for a generated id) -/
-  empty : f "" = ""
   /-- a non-empty id is not mapped to the empty one -/
   nonempty : ∀ x, x ≠ "" → f x ≠ ""
   /-- normalising twice is normalising once -/
@@ -120,8 +119,8 @@ theorem RStore.istep_iinv {f : String → String} (hf : GoodIcpt f) (s : RStore)
     (s.istep f op).1.IInv f := by
   cases op with
   | add id cand =>
-    simp only [RStore.istep, RStore.istepWith]
-    by_cases he : f id = ""
+    simp only [RStore.istep, RStore.istepWith, true_and]
+    by_cases he : id = "" ∨ f id = ""
     · simp only [he, if_true]
       cases hg : genId cand (fun c => decide (f c ∈ s.ids)) 10 0 with
       | none => exact h
@@ -135,7 +134,7 @@ theorem RStore.istep_iinv {f : String → String} (hf : GoodIcpt f) (s : RStore)
       by_cases hm : f id ∈ s.ids
       · simp only [hm, if_true]; exact h
       · simp only [hm, if_false]
-        have hid : id ≠ "" := fun e => he (e ▸ hf.empty)
+        have hid : id ≠ "" := fun e => he (Or.inl e)
         exact iinv_cons h hm rfl hid
   | ensure name =>
     simp only [RStore.istep, RStore.istepWith]
@@ -223,7 +222,7 @@ theorem flisting_facts {f : String → String} {s : RStore} (h : s.IInv f) :
 theorem RStore.istep_id (s : RStore) (op : RecOp) : s.istep id op = s.step op := by
   cases op with
   | add i cand =>
-    simp only [RStore.istep, RStore.istepWith, RStore.step, RStore.stepWith, id]
+    simp only [RStore.istep, RStore.istepWith, RStore.step, RStore.stepWith, id, true_and, or_self]
     by_cases he : i = ""
     · simp only [he, if_true]
       cases genId cand (fun c => decide (c ∈ s.ids)) 10 0 <;> rfl
@@ -330,7 +329,7 @@ theorem toUpper_idem (c : Char) : c.toUpper.toUpper = c.toUpper := by
   · rw [toUpper_of_not c h, toUpper_of_not c h]
 
 theorem map_good (g : Char → Char) (hg : ∀ c, g (g c) = g c) : GoodIcpt (String.map g) := by
-  refine ⟨by simp, ?_, ?_⟩
+  refine ⟨?_, ?_⟩
   · intro x hx h
     have := congrArg String.toList h
     simp [String.toList_map] at this
